@@ -299,7 +299,32 @@ pub fn run(op: &str, a: &[&str]) -> Option<String> {
         ("opt.raw", [h]) => {
             let b = hex(h)?;
             match TcpOptions::try_from_slice(&b) {
-                Ok(o) => show_opts(&o),
+                Ok(o) => {
+                    // the other constructors of the same value: TryFrom<&[u8]>, and for the sizes that have one
+                    // the array conversions (TcpOptions and, same code, Ipv4Options)
+                    let mut bad = TcpOptions::try_from(&b[..]).ok().as_ref() != Some(&o);
+                    macro_rules! arrays {
+                        ($($n:literal),*) => {
+                            $(
+                                if b.len() == $n {
+                                    let a: [u8; $n] = b[..].try_into().unwrap();
+                                    let t = TcpOptions::from(a);
+                                    let i = etherparse::Ipv4Options::from(a);
+                                    bad = bad || t != o || t.as_slice() != &b[..] || i.as_slice() != &b[..] || i.len() != $n;
+                                }
+                            )*
+                        };
+                    }
+                    arrays!(4, 8, 12, 16, 20, 24, 28, 32, 36, 40);
+                    if b.is_empty() {
+                        let i = etherparse::Ipv4Options::from([0u8; 0]);
+                        bad = bad || i.len() != 0 || !i.as_slice().is_empty();
+                    }
+                    if b.is_empty() {
+                        bad = bad || TcpOptions::new() != o || TcpOptions::default() != o;
+                    }
+                    format!("{}{}", show_opts(&o), if bad { "!decoders-differ" } else { "" })
+                }
                 Err(e) => show_werr(&e),
             }
         }
